@@ -245,9 +245,9 @@ def attach_scc_subdiagram(
             # This node can be marked as expanded, because we know its successors.
             # We just need to add them in the for loop below.
             main_node_data = sd.node_data(main_node_id)
-            if not main_node_data["expanded"]:
+            if not main_node_data["expanded"] or main_node_data["skipped"]:
                 # Attractor data computed while the node had no successors
-                # is no longer valid.
+                # (or, for a skip node, only its skip edges) is no longer valid.
                 main_node_data["attractor_seeds"] = None
                 main_node_data["attractor_candidates"] = None
                 main_node_data["attractor_sets"] = None
@@ -275,9 +275,9 @@ def attach_scc_subdiagram(
 
     # This makes the `attach_at` node expanded. We will not be adding new nodes to it later.
     attach_at_data = sd.node_data(attach_at)
-    if not attach_at_data["expanded"]:
+    if not attach_at_data["expanded"] or attach_at_data["skipped"]:
         # Attractor data computed while the node had no successors
-        # is no longer valid.
+        # (or, for a skip node, only its skip edges) is no longer valid.
         attach_at_data["attractor_seeds"] = None
         attach_at_data["attractor_candidates"] = None
         attach_at_data["attractor_sets"] = None
